@@ -87,16 +87,25 @@ Fixpoint depth (b : box) : nat :=
 Definition typ_moov := fourcc 109 111 111 118.
 Definition typ_mehd := fourcc 109 101 104 100.
 Definition typ_pssh := fourcc 112 115 115 104.
-(* generate_init_segment: append the pssh boxes to moov; in live mode delete a DIRECT child mehd
-   (del atom.moov.mehd only looks at direct children; AttributeError is swallowed) *)
+Definition typ_mvex := fourcc 109 118 101 120.
+(* del parent.<type>: the first child of that type goes (AttributeError, swallowed, when there is none) *)
+Fixpoint drop_first_typ (t : bytes) (l : list box) : list box :=
+  match l with
+  | [] => []
+  | x :: r => if bytes_eqb (box_typ x) t then r else x :: drop_first_typ t r
+  end.
+(* parent.<type>.<...>: the edit applies to the children of the first child of that type *)
+Fixpoint in_first_typ (t : bytes) (f : list box -> list box) (l : list box) : list box :=
+  match l with
+  | [] => []
+  | Node t' cs :: r => if bytes_eqb t' t then Node t' (f cs) :: r else Node t' cs :: in_first_typ t f r
+  | x :: r => if bytes_eqb (box_typ x) t then x :: r else x :: in_first_typ t f r
+  end.
+(* generate_init_segment: append the pssh boxes to moov; in live mode delete the mehd box - a direct child of moov
+   (del atom.moov.mehd) and the one inside moov/mvex, where it normally lives (del atom.moov.mvex.mehd) *)
 Definition rewrite_moov_children (live : bool) (psshs cs : list box) : list box :=
-  (if live then
-     (fix drop_first (l : list box) : list box :=
-        match l with
-        | [] => []
-        | x :: r => if bytes_eqb (box_typ x) typ_mehd then r else x :: drop_first r
-        end) (cs ++ psshs)
-   else cs ++ psshs).
+  if live then in_first_typ typ_mvex (drop_first_typ typ_mehd) (drop_first_typ typ_mehd (cs ++ psshs))
+  else cs ++ psshs.
 Definition rewrite_init (live : bool) (psshs : list box) (top : list box) : list box :=
   map (fun b => match b with
                 | Node t cs => if bytes_eqb t typ_moov then Node t (rewrite_moov_children live psshs cs) else b
